@@ -128,7 +128,7 @@ fn check_result<const N: usize>(
     kani::cover!(off > 0 && matches!(exp, RefFrame::Frame { .. }) && got.is_ok(), "skipped >= 1 unknown frame, then a frame");
     kani::cover!(off > 2 && matches!(exp, RefFrame::NeedMore), "skipped unknown frame with payload, then need-more");
     kani::cover!(matches!(got, Err(_)));
-    kani::cover!(matches!(exp, RefFrame::Frame { session: Some(_), .. }) && got.is_ok());
+    kani::cover!(matches!(exp, RefFrame::Frame { session: Some(_), .. }) && got.is_ok() == (role == Role::BiRemote));
 }
 
 fn any_control_like_stream(sel: u8, id: crate::varint::VarInt) -> uniremote::StreamUniRemoteH3 {
@@ -139,7 +139,7 @@ fn any_control_like_stream(sel: u8, id: crate::varint::VarInt) -> uniremote::Str
         1 => StreamKind::QPackEncoder,
         2 => StreamKind::QPackDecoder,
         _ => {
-            kani::assume(crate::verif_kani::oracle::grease(id.into_inner()));
+            kani::assume(spec::is_grease(id.into_inner()) && id.into_inner() < 0x4000);
             StreamKind::Exercise(id)
         }
     };
@@ -162,7 +162,10 @@ fn any_control_like_stream(sel: u8, id: crate::varint::VarInt) -> uniremote::Str
 /// reference; `buffered == true` checks `read_frame_from_buffer` instead (offset == consumption on
 /// `Some`, unchanged otherwise).
 fn read_frame_vs_reference<const N: usize, const K: usize>(role: Role, buffered: bool) {
-    crate::verif_kani::oracle::enable();
+    read_frame_vs_reference_nostub::<N, K>(role, buffered)
+}
+
+fn read_frame_vs_reference_nostub<const N: usize, const K: usize>(role: Role, buffered: bool) {
     let buf: [u8; N] = kani::any();
     let len: usize = kani::any();
     kani::assume(len <= N);
@@ -211,33 +214,50 @@ fn read_frame_vs_reference<const N: usize, const K: usize>(role: Role, buffered:
             }
             check_result(role, done, &buf, &exp, off, &got, consumed, done);
         }
-        Role::Session => unreachable!(),
+        Role::Session => {
+            let s = any_session_stream();
+            let got = if buffered { s.read_frame_from_buffer(&mut br) } else { s.read_frame(&mut r) };
+            let consumed = if buffered { br.offset() } else { len - r.len() };
+            if buffered && !matches!(got, Ok(Some(_))) {
+                assert!(consumed == 0);
+            }
+            check_result(role, done, &buf, &exp, off, &got, consumed, done);
+        }
     }
+}
+
+/// A session-stream typestate whose `SessionRequest` is never read by `read_frame*` /
+/// `validate_frame` (they take `&self` and look only at the frame). The request lives in a
+/// `MaybeUninit` that is never dropped or dereferenced beyond taking the reference.
+fn any_session_stream() -> &'static session::StreamSession {
+    static mut SLOT: core::mem::MaybeUninit<session::StreamSession> = core::mem::MaybeUninit::uninit();
+    unsafe { &*core::ptr::addr_of!(SLOT).cast::<session::StreamSession>() }
 }
 
 macro_rules! harness {
     ($name:ident, $role:expr, $buffered:expr, $n:expr, $k:expr, $unwind:expr) => {
+        // No `kani::stub` here (exact GREASE arithmetic, hence minutes per harness, thorough tier):
+        // with Kani 0.68 a harness that combines `kani::stub` with the skip loop reports spurious
+        // `__rust_dealloc` failures for the `Cow::Owned(Vec::new())` payload of a dropped WT frame.
         #[kani::proof]
         #[kani::unwind($unwind)]
-        #[kani::stub(FrameKind::is_id_exercise, crate::verif_kani::oracle::grease_varint)]
-        #[kani::stub(StreamKind::is_id_exercise, crate::verif_kani::oracle::grease_varint)]
         pub fn $name() {
-            read_frame_vs_reference::<$n, $k>($role, $buffered);
+            read_frame_vs_reference_nostub::<$n, $k>($role, $buffered);
         }
     };
 }
 
-// quick: base case + one induction step of the skip loop
-harness!(p_read_frame_biremote_k1, Role::BiRemote, false, 14, 1, 10);
-harness!(p_read_frame_bilocal_k1, Role::BiLocal, false, 14, 1, 10);
-harness!(p_read_frame_unicontrol_k1, Role::UniRemoteControl, false, 14, 1, 10);
-harness!(p_read_frame_buffered_biremote_k1, Role::BiRemote, true, 14, 1, 10);
-harness!(p_read_frame_buffered_bilocal_k1, Role::BiLocal, true, 14, 1, 10);
-harness!(p_read_frame_buffered_unicontrol_k1, Role::UniRemoteControl, true, 14, 1, 10);
-// thorough: three leading unknown frames, longer input
-harness!(p_read_frame_biremote_k3, Role::BiRemote, false, 24, 3, 10);
-harness!(p_read_frame_bilocal_k3, Role::BiLocal, false, 24, 3, 10);
-harness!(p_read_frame_unicontrol_k3, Role::UniRemoteControl, false, 24, 3, 10);
+// base case + one induction step of the skip loop on fully symbolic input
+harness!(p_read_frame_biremote_k1, Role::BiRemote, false, 14, 1, 3);
+harness!(p_read_frame_bilocal_k1, Role::BiLocal, false, 14, 1, 3);
+harness!(p_read_frame_unicontrol_k1, Role::UniRemoteControl, false, 14, 1, 3);
+harness!(p_read_frame_session_k1, Role::Session, false, 14, 1, 3);
+harness!(p_read_frame_buffered_biremote_k1, Role::BiRemote, true, 14, 1, 3);
+harness!(p_read_frame_buffered_bilocal_k1, Role::BiLocal, true, 14, 1, 3);
+harness!(p_read_frame_buffered_unicontrol_k1, Role::UniRemoteControl, true, 14, 1, 3);
+harness!(p_read_frame_buffered_session_k1, Role::Session, true, 14, 1, 3);
+// three leading unknown frames, longer input
+harness!(p_read_frame_biremote_k3, Role::BiRemote, false, 24, 3, 5);
 
 /// `uniremote::upgrade`: stream header per the reference; unknown type -> H3_STREAM_CREATION_ERROR
 /// (stream-level), invalid session id -> H3_ID_ERROR; need-more-data returns the stream unchanged
@@ -342,12 +362,127 @@ pub fn p_wt_upgrades_write_exact_preamble() {
     }
 }
 
-#[kani::proof]
-#[kani::unwind(10)]
-pub fn x_dbg_drop() {
-    let buf: [u8; 3] = [0x40, 0x41, 0x00];
-    let s = bilocal::StreamBiLocalQuic::open_bi().upgrade();
-    let mut r: &[u8] = &buf[..];
-    let got = s.read_frame(&mut r);
-    assert!(matches!(got, Err(ErrorCode::FrameUnexpected)));
+// ---- C12 rule table on well-formed single frames (cheap; every role x kind x state) -------------
+
+/// Encodes (reference encoder, never the crate's) one frame of a symbolic kind:
+/// DATA / HEADERS / SETTINGS with <= 3 payload bytes, a WT signal with any valid session id, or a
+/// GREASE frame (id 0x21 + 0x1f * n, n < 2^20 symbolic) - optionally preceded by ONE unknown frame
+/// (type 0x0d, one payload byte that is itself a valid frame type) to exercise the skip path.
+fn one_frame_input(buf: &mut [u8; 24]) -> (usize, u64, Option<u64>, usize, usize) {
+    let sel: u8 = kani::any();
+    let n: u32 = kani::any();
+    let sid: SessionId = kani::any();
+    let plen: usize = kani::any();
+    kani::assume(plen <= 3);
+    let lead: bool = kani::any();
+    let pbytes: [u8; 3] = kani::any();
+    kani::assume(n < (1 << 20));
+    let kind: u64 = match sel % 5 {
+        0 => spec::frame_type::DATA,
+        1 => spec::frame_type::HEADERS,
+        2 => spec::frame_type::SETTINGS,
+        3 => spec::frame_type::WT_STREAM,
+        _ => 0x21 + 0x1f * n as u64,
+    };
+    let mut off = 0;
+    if lead {
+        off = crate::verif_kani::util::put_ref_varint(buf, off, 0x0d);
+        off = crate::verif_kani::util::put_ref_varint(buf, off, 1);
+        buf[off] = pbytes[0] & 0x07; // looks like a frame type (0..7)
+        off += 1;
+    }
+    let start = off;
+    off = crate::verif_kani::util::put_ref_varint(buf, off, kind);
+    if kind == spec::frame_type::WT_STREAM {
+        off = crate::verif_kani::util::put_ref_varint(buf, off, sid.into_u64());
+        (off, kind, Some(sid.into_u64()), 0, start)
+    } else {
+        off = crate::verif_kani::util::put_ref_varint(buf, off, plen as u64);
+        if plen > 0 {
+            buf[off] = pbytes[0];
+        }
+        if plen > 1 {
+            buf[off + 1] = pbytes[1];
+        }
+        if plen > 2 {
+            buf[off + 2] = pbytes[2];
+        }
+        (off + plen, kind, None, plen, start)
+    }
 }
+
+fn rule_table(role: Role) {
+    use spec::error_code::*;
+    let mut buf = [0u8; 24];
+    let (len, kind, session, plen, _start) = one_frame_input(&mut buf);
+    let done: bool = kani::any();
+    let hk_sel: u8 = kani::any();
+    let hk_id: crate::varint::VarInt = kani::any();
+    let mut r: &[u8] = &buf[..len];
+    let (got, after) = match role {
+        Role::BiRemote => {
+            let mut s = biremote::StreamBiRemoteQuic::accept_bi().upgrade();
+            if done {
+                s.stage.set_first_frame();
+            }
+            let g = s.read_frame(&mut r);
+            (g, s.stage.set_first_frame())
+        }
+        Role::BiLocal => {
+            let mut s = bilocal::StreamBiLocalQuic::open_bi().upgrade();
+            if done {
+                s.stage.set_first_frame();
+            }
+            (s.read_frame(&mut r), done)
+        }
+        Role::UniRemoteControl => {
+            let mut s = any_control_like_stream(hk_sel, hk_id);
+            (s.read_frame(&mut r), done)
+        }
+        Role::Session => (any_session_stream().read_frame(&mut r), done),
+    };
+    match (rule(role, kind, done), &got) {
+        (Verdict::Accept, Ok(Some(f))) => {
+            assert!(frame_kind_code(&f.kind()) == kind);
+            assert!(f.session_id().map(|s| s.into_u64()) == session);
+            assert!(f.payload().len() == plen);
+            assert!(r.is_empty());
+        }
+        (Verdict::Reject(code), Err(e)) => {
+            assert!(e.to_code().into_inner() == code);
+        }
+        _ => panic!("frame-on-stream rule table: accept/reject differs from the specification"),
+    }
+    if role == Role::BiRemote {
+        assert!(after);
+    }
+    kani::cover!(got.is_ok() && kind > 0x41);
+    kani::cover!(session.is_some() && got.is_ok() == (role == Role::BiRemote));
+    kani::cover!(got.is_err());
+}
+
+#[kani::proof]
+#[kani::unwind(3)]
+pub fn p_rule_table_biremote() {
+    rule_table(Role::BiRemote);
+}
+
+#[kani::proof]
+#[kani::unwind(3)]
+pub fn p_rule_table_bilocal() {
+    rule_table(Role::BiLocal);
+}
+
+#[kani::proof]
+#[kani::unwind(3)]
+pub fn p_rule_table_unicontrol() {
+    rule_table(Role::UniRemoteControl);
+}
+
+#[kani::proof]
+#[kani::unwind(3)]
+pub fn p_rule_table_session() {
+    rule_table(Role::Session);
+}
+
+
